@@ -28,6 +28,8 @@ type raceSummary struct {
 	Corruptions   int            `json:"own_bytes_corrupted"`
 	Hang          bool           `json:"hang"`
 	FinalProblems []string       `json:"final_state_problems"`
+	LimitRounds   int            `json:"limit_rounds"`
+	LimitOverruns []string       `json:"limit_overruns"`
 	DriverCalls   map[string]int `json:"driver_calls"`
 	Note          string         `json:"note"`
 }
@@ -361,6 +363,7 @@ func cmdRace(args []string) {
 			}
 		}()
 	}
+	raceLimits(sum, *dur/3)
 	for _, v := range dev.TakeViolations() {
 		sum.Violations[v.Code]++
 	}
@@ -381,6 +384,71 @@ func cmdRace(args []string) {
 	if sum.Hang {
 		os.Exit(4)
 	}
+}
+
+// raceLimits is the concurrent half of C11/C12's "totals equal those of some sequential execution": an
+// allocator whose heap 0 is limited to 3 MiB; every round 16 goroutines request one dedicated 1 MiB
+// allocation at the same moment.  In every sequential order exactly 3 succeed; more than 3 successes, or
+// device bytes above the limit at any moment, is an overrun.
+func raceLimits(sum *raceSummary, dur time.Duration) {
+	const mib = 1 << 20
+	cfg := simvk.Config{
+		API:   10,
+		Heaps: []simvk.HeapCfg{{Size: 64 * mib, DeviceLocal: true}},
+		Types: []simvk.TypeCfg{{Heap: 0, Flags: simvk.PropDeviceLocal}, {Heap: 0, Flags: simvk.PropDeviceLocal | simvk.PropHostVisible | simvk.PropHostCoherent}},
+		Granularity: 1, AtomSize: 1, MaxAllocCount: 1 << 20, Log: false, TableSize: 1 << 16,
+	}
+	dev := simvk.NewDevice(cfg)
+	drv := simvk.NewDriver(dev)
+	limit := 3 * mib
+	alloc, err := vam.New(discardLogger, drv.Driver, drv.PhysicalDevice, vam.CreateOptions{HeapSizeLimits: []int{limit}})
+	if err != nil {
+		sum.LimitOverruns = append(sum.LimitOverruns, "vam.New with HeapSizeLimits: "+err.Error())
+		return
+	}
+	const g = 16
+	end := time.Now().Add(dur)
+	for time.Now().Before(end) && len(sum.LimitOverruns) < 3 {
+		sum.LimitRounds++
+		slots := make([]vam.Allocation, g)
+		okv := make([]bool, g)
+		var peak atomic.Int64
+		startCh := make(chan struct{})
+		var wg sync.WaitGroup
+		for i := 0; i < g; i++ {
+			wg.Add(1)
+			go func(i int) {
+				defer wg.Done()
+				defer func() { _ = recover() }()
+				<-startCh
+				mr := core1_0.MemoryRequirements{Size: mib, Alignment: 256, MemoryTypeBits: uint32(1 + i%2*2) | 1}
+				_, err := alloc.AllocateMemory(&mr, vam.AllocationCreateInfo{Flags: vam.AllocationCreateDedicatedMemory}, &slots[i])
+				okv[i] = err == nil
+				if b := int64(dev.HeapBytes(0)); b > peak.Load() {
+					peak.Store(b)
+				}
+			}(i)
+		}
+		close(startCh)
+		wg.Wait()
+		n := 0
+		for i := range okv {
+			if okv[i] {
+				n++
+			}
+		}
+		hs, _, _ := vam.VerifHeapBudget(alloc, 0)
+		if n > 3 || int(peak.Load()) > limit || dev.HeapBytes(0) > limit || hs.BlockBytes > limit {
+			sum.LimitOverruns = append(sum.LimitOverruns, fmt.Sprintf("round %d: %d of %d concurrent 1 MiB dedicated allocations succeeded under a 3 MiB heap limit; device holds %d bytes (peak %d), allocator counts %d",
+				sum.LimitRounds, n, g, dev.HeapBytes(0), peak.Load(), hs.BlockBytes))
+		}
+		for i := range slots {
+			if okv[i] {
+				_ = slots[i].Free()
+			}
+		}
+	}
+	_ = alloc.Destroy()
 }
 
 // cmdRaceSum summarizes Go race detector output (stderr of `vamh race` built with -race): one line per distinct
